@@ -375,6 +375,60 @@ def _index_ok(idx, fnode, node):
     return False
 
 
+def rule_working(ctx):
+    ctx.rule('C13.once', 'a generator never hands out (yields, or passes bare to the function whose result it yields) a list that it goes on '
+                         'writing by index: every item collected from the stream would be that one list in its final state')
+    n = 0
+    for fi in sorted(ctx.repo.functions.values(), key=lambda f: f.fq):
+        if not fi.module.name.startswith('sc3.seq.patterns'):
+            continue
+        ys = [x for x in walk_local(fi.node) if isinstance(x, ast.Yield) and x.value is not None]
+        if not ys:
+            continue
+        written = {t.value.id for x in walk_local(fi.node) if isinstance(x, (ast.Assign, ast.AugAssign))
+                   for t in (x.targets if isinstance(x, ast.Assign) else [x.target])
+                   if isinstance(t, ast.Subscript) and isinstance(t.value, ast.Name)}
+        # ... and that it does not make anew on the way round: a name bound inside a loop is a fresh object per item
+        rebound = {t.id for lp in walk_local(fi.node) if isinstance(lp, (ast.For, ast.While)) for x in ast.walk(lp)
+                   if isinstance(x, ast.Assign) for t in x.targets if isinstance(t, ast.Name)}
+        rebound |= {n_.id for lp in walk_local(fi.node) if isinstance(lp, ast.For) for n_ in ast.walk(lp.target) if isinstance(n_, ast.Name)}
+        written -= rebound
+        n += 1
+        for y in ys:
+            bare = set()
+            if isinstance(y.value, ast.Name):
+                bare.add(y.value.id)
+            if isinstance(y.value, ast.Call):
+                bare |= {a.id for a in y.value.args if isinstance(a, ast.Name)}
+            hit = sorted(bare & written)
+            ctx.ob('C13.once', f'{fi.fq}:{norm(y)[:50]}:working-list', not hit,
+                   f'{norm(y)[:60]} hands out {hit}, a list this generator keeps writing by index: the items of the sequence alias one object', y, fi.module)
+    ctx.require(n >= 40, 'C13.once', f'only {n} generators analysed')
+
+
+def rule_stop(ctx):
+    ctx.rule('C13.inval', 'inside a generator body every read of a stream (`<stream>.next(...)`) is lexically inside a try whose handler '
+                          'catches StopStream: StopStream is a StopIteration, and one that escapes a generator body surfaces as '
+                          'RuntimeError and kills every enclosing pattern instead of ending this one')
+    n = 0
+    for fi in sorted(ctx.repo.functions.values(), key=lambda f: f.fq):
+        if not fi.module.name.startswith('sc3.seq'):
+            continue
+        if not any(isinstance(x, (ast.Yield, ast.YieldFrom)) for x in walk_local(fi.node)):
+            continue
+        for c in U.calls(fi.node):
+            if not (isinstance(c.func, ast.Attribute) and c.func.attr == 'next'):
+                continue
+            n += 1
+            guarded = any(isinstance(p_, ast.Try) and U.in_body(c, p_, 'body') and any(
+                h.type is None or any(t in norm(h.type) for t in ('StopStream', 'StopIteration', 'BaseException')) or norm(h.type) == 'Exception'
+                for h in p_.handlers) for p_ in U.parent_chain(c))
+            ctx.ob('C13.inval', f'{fi.fq}:{norm(c)}:inside-stop-guard', guarded,
+                   f'{norm(c)} in the generator {fi.qualname} is outside every `try ... except StopStream`: when that stream is empty the '
+                   f'pattern does not end, it raises RuntimeError (PEP 479)', c, fi.module)
+    ctx.require(n >= 60, 'C13.inval', f'only {n} stream reads in generator bodies found')
+
+
 def rule_index(ctx):
     ctx.rule('C13.index', 'a computed index into a list pattern\'s list is reduced modulo the size, drawn from [0, size) or guarded on '
                           'both sides (a negative index silently reads from the end); the Pseq-family offset is reduced modulo the size '
@@ -450,9 +504,17 @@ def run(ctx):
     rule_pure(ctx)
     rule_fresh(ctx)
     rule_inval(ctx)
+    rule_stop(ctx)
+    rule_working(ctx)
 
 
 MUTANTS = [
+    dict(rule='C13.once', name='Pproduct yields its working list (fix reverted)', file='sc3/seq/patterns/funcpatterns.py',
+         old="                    inval = yield self.func(values[:])", new="                    inval = yield self.func(values)"),
+    dict(rule='C13.inval', name='Pdiff primes its source outside the StopStream guard (seed C13-g)', file='sc3/seq/patterns/filterpatterns.py',
+         old="        try:\n            prev = stream.next(inval)\n            while True:", new="        prev = stream.next(inval)\n        try:\n            while True:"),
+    dict(rule='C13.inval', name='Pwalk primes its directions outside the guard (fix reverted)', file='sc3/seq/patterns/listpatterns.py',
+         old="\n        try:\n            direction = direction_stream.next(inval)  # raises StopStream\n", new="        direction = direction_stream.next(inval)\n\n        try:\n"),
     dict(rule='C13.index', name='Pslide keeps its position reduced modulo the size (seed C13-e)', file='sc3/seq/patterns/listpatterns.py',
          old="                pos += step_stream.next(inval)  # raises StopStream", new="                pos = bi.mod(pos + step_stream.next(inval), size)  # raises StopStream"),
     dict(rule='C13.index', name='Pseq rotates its list in the constructor, subclasses rotate again (seed C13-c)', file='sc3/seq/patterns/listpatterns.py',
